@@ -35,6 +35,7 @@ import (
 	"fmt"
 	"math"
 	"strconv"
+	"strings"
 
 	"github.com/XiaoMi/Gaea/mysql"
 	"github.com/XiaoMi/Gaea/util"
@@ -141,10 +142,16 @@ func CalcParams(sql string) (count int, offsets []int, sqlItems []string, err er
 	return
 }
 
-func escapeSQL(sql string) string {
+// escapeSQL makes the bytes of a parameter value the body of a '...' literal
+// that denotes exactly those bytes: a quote is doubled (understood in every
+// sql_mode); a backslash is doubled too, unless the session's sql_mode
+// contains NO_BACKSLASH_ESCAPES, in which a backslash stands for itself.
+func escapeSQL(sql string, noBackslashEscapes bool) string {
 	t := make([]byte, 0, len(sql))
 	for _, elem := range []byte(sql) {
-		if elem == '\\' || elem == '\'' {
+		if elem == '\'' {
+			t = append(t, '\'')
+		} else if elem == '\\' && !noBackslashEscapes {
 			t = append(t, '\\')
 		}
 		t = append(t, elem)
@@ -178,7 +185,7 @@ func (s *Stmt) GetParamTypes() []byte {
 }
 
 // GetRewriteSQL get rewrite sql
-func (s *Stmt) GetRewriteSQL() (string, error) {
+func (s *Stmt) GetRewriteSQL(noBackslashEscapes bool) (string, error) {
 	var buffer bytes.Buffer
 	index := 0
 
@@ -186,9 +193,8 @@ func (s *Stmt) GetRewriteSQL() (string, error) {
 		if s.sqlItems[i] == "?" {
 			quote, tmp := util.ItoString(s.args[index])
 			index++
-			tmp = escapeSQL(tmp)
 			if quote {
-				tmp = "'" + tmp + "'"
+				tmp = "'" + escapeSQL(tmp, noBackslashEscapes) + "'"
 			}
 			buffer.WriteString(tmp)
 		} else {
@@ -197,6 +203,30 @@ func (s *Stmt) GetRewriteSQL() (string, error) {
 	}
 
 	return buffer.String(), nil
+}
+
+// sqlModeNoBackslashEscapesBit is NO_BACKSLASH_ESCAPES in MySQL's numeric sql_mode.
+const sqlModeNoBackslashEscapesBit = 1 << 20
+
+// noBackslashEscapes tells whether the sql_mode this session has set contains
+// NO_BACKSLASH_ESCAPES (given by name in a list of modes, or as a number).
+func (se *SessionExecutor) noBackslashEscapes() bool {
+	v, ok := se.sessionVariables.Get(mysql.SQLModeStr)
+	if !ok {
+		return false
+	}
+	variable, ok := v.(*mysql.Variable)
+	if !ok {
+		return false
+	}
+	mode, ok := variable.Get().(string)
+	if !ok {
+		return false
+	}
+	if n, err := strconv.ParseUint(strings.TrimSpace(mode), 10, 64); err == nil {
+		return n&sqlModeNoBackslashEscapesBit != 0
+	}
+	return strings.Contains(strings.ToUpper(mode), "NO_BACKSLASH_ESCAPES")
 }
 
 func (se *SessionExecutor) handleStmtExecute(reqCtx *util.RequestContext, data []byte) (*mysql.Result, error) {
@@ -262,7 +292,7 @@ func (se *SessionExecutor) handleStmtExecute(reqCtx *util.RequestContext, data [
 			return nil, err
 		}
 
-		executeSQL, err = s.GetRewriteSQL()
+		executeSQL, err = s.GetRewriteSQL(se.noBackslashEscapes())
 		if err != nil {
 			return nil, err
 		}
